@@ -302,7 +302,8 @@ def configs_for(ctx, rows, mp_ok, small):
                 cfgs.append({"reduce": red, "segments": s, "nprocs": 1, "fresh_all": s in (2, None)})
     # history on the target object: get_lonlats(cache=True) before the call (AreaDefinition targets; ignored for swaths)
     cfgs.append({"reduce": False, "segments": 3, "nprocs": 1, "fresh_all": False, "cache_target": True})
-    cfgs.append({"reduce": True, "segments": 2, "nprocs": 1, "fresh_all": False, "cache_target": True})
+    if ctx.thorough:
+        cfgs.append({"reduce": True, "segments": 2, "nprocs": 1, "fresh_all": False, "cache_target": True})
     if mp_ok and small:
         if ctx.thorough:
             for red in (True, False):
@@ -317,7 +318,7 @@ def configs_for(ctx, rows, mp_ok, small):
 def gen_cases(ctx, mp_ok):
     r = ctx.rng
     targets = fixed_targets()
-    n_rand = ctx.n(30, 200)
+    n_rand = ctx.n(24, 200)
     targets += [random_target(r) for _ in range(n_rand)]
     cases = []
     for ti, tgt in enumerate(targets):
